@@ -4,8 +4,9 @@ from . import ctr_common as C
 ID = "C20"
 MOD = "harness.props.c20"
 T = "MetadorModel.C20."
+B = "MetadorModel.Bridge.TocFns."  # translated tie (harness/translate_c06.py)
 LEAN = dict(
-    modules=["MetadorModel.Props.C20"],
+    modules=["MetadorModel.Props.C20", "MetadorModel.Bridge.TocFnsPaths", "MetadorModel.Bridge.TocFnsPkg", "MetadorModel.Bridge.TocFnsSchemas"],
     theorems=[T + n for n in (
         "self_describing",
         "only_used_embedded",
@@ -15,9 +16,27 @@ LEAN = dict(
         "self_describing_reopen",
         "reload_reports_only_used",
         "self_describing_reachable",
+    )] + [B + n for n in (
+        "gen_jsonschema_path_for",
+        "gen_schema_path_for",
+        "gen_pkginfo_path_for",
+        "gen_pkg_register",
+        "gen_pkg_unregister",
+        "gen_pkg_init",
+        "gen_upc_add",
+        "gen_upc_remove",
+        "gen_schema_register",
+        "gen_schema_unregister",
+        "gen_schemas_init",
+        "gen_versions",
+        "gen_children",
+        "gen_parent_path",
     )],
     drivers=["drv_ctr"],
 )
+
+
+translate = C.translate
 
 
 def impl(case):
